@@ -304,11 +304,16 @@ func (fc *fileController) acquireReader(ctx context.Context, key uint16) (*contr
 func (fc *fileController) newReader(ctx context.Context, key uint16) (*controlledReader, error) {
 	_, span := fc.T.Bench(ctx, "new_reader")
 	defer span.End()
+	// The file must be opened while holding the readers lock: garbage collection holds
+	// it while it swaps a file for its compacted copy, and a handle opened just before
+	// the swap would keep reading the old file at the new offsets.
+	fc.readers.Lock()
 	file, err := fc.FS.Open(
 		fileKeyToName(key),
 		os.O_RDONLY,
 	)
 	if err != nil {
+		fc.readers.Unlock()
 		return nil, span.Error(err)
 	}
 
@@ -316,7 +321,6 @@ func (fc *fileController) newReader(ctx context.Context, key uint16) (*controlle
 		ReaderAtCloser:  file,
 		controllerEntry: newPoolEntry(key, fc.release, fc.Instrumentation),
 	}
-	fc.readers.Lock()
 	f, ok := fc.readers.files[key]
 	if !ok {
 		fc.readers.files[key] = &fileReaders{open: []controlledReader{r}}
